@@ -4,7 +4,7 @@
 #  demo passes without the change, fails with it; the existing suite shows no new failures with it.
 # On success stores /verif/seeded/<Cxx>-<X>/{patch.diff,demo.*,meta.json}.
 id="$1"; x="$2"; round="${SEED_ROUND:-1}"
-if [ "$round" = 7 ]; then out=/tmp/seed/out7-$id; elif [ "$round" = 6 ]; then out=/tmp/seed/out6-$id; elif [ "$round" = 5 ]; then out=/tmp/seed/out5-$id; elif [ "$round" = 4 ]; then out=/tmp/seed/out4-$id; elif [ "$round" = 3 ]; then out=/tmp/seed/out3-$id; elif [ "$round" = 2 ]; then out=/tmp/seed/out2-$id; else out=/tmp/seed/out-$id; fi
+if [ "$round" = 8 ]; then out=/tmp/seed/out8-$id; elif [ "$round" = 7 ]; then out=/tmp/seed/out7-$id; elif [ "$round" = 6 ]; then out=/tmp/seed/out6-$id; elif [ "$round" = 5 ]; then out=/tmp/seed/out5-$id; elif [ "$round" = 4 ]; then out=/tmp/seed/out4-$id; elif [ "$round" = 3 ]; then out=/tmp/seed/out3-$id; elif [ "$round" = 2 ]; then out=/tmp/seed/out2-$id; else out=/tmp/seed/out-$id; fi
 wt=/tmp/seed/wt-$id
 # round-2 changes are stored as variants C and D, round-3 changes as E and F
 variant="$x"; if [ "$round" = 2 ]; then [ "$x" = A ] && variant=C; [ "$x" = B ] && variant=D; fi
@@ -13,6 +13,7 @@ if [ "$round" = 4 ]; then [ "$x" = A ] && variant=G; [ "$x" = B ] && variant=H; 
 if [ "$round" = 5 ]; then [ "$x" = A ] && variant=I; [ "$x" = B ] && variant=J; fi
 if [ "$round" = 6 ]; then [ "$x" = A ] && variant=K; [ "$x" = B ] && variant=L; fi
 if [ "$round" = 7 ]; then [ "$x" = A ] && variant=M; [ "$x" = B ] && variant=N; fi
+if [ "$round" = 8 ]; then [ "$x" = A ] && variant=O; [ "$x" = B ] && variant=P; fi
 patch="${3:-$out/$x.patch.diff}"
 head=$(git -C /repo rev-parse HEAD)
 log=/tmp/seed/confirm-$id-$x.log; : > "$log"
